@@ -9,8 +9,8 @@ THEOREMS = ["PauLie.C07.universalSet_eq", "PauLie.C07.C07_size", "PauLie.C07.C07
             "PauLie.C07.Q_add", "PauLie.C07.Q_closure", "PauLie.C07.C07_refuted_odd", "PauLie.C07.C07_refuted",
             "PauLie.C07.C07_anchor_4_3", "PauLie.C07.C07_even_partial", "PauLie.C07.C07_size_k1_duplicates",
             "PauLie.Closure.closureList_sound_complete", "PauLie.Closure.closureList_exhausted",
-            "PauLie.Closure.closureList_nodup"]
-IMPORTS = ["PauLieVerif.Properties.C07", "PauLieVerif.Proofs.Closure"]
+            "PauLie.Closure.closureList_nodup", "PauLie.Tie.uset_tie"]
+IMPORTS = ["PauLieVerif.Properties.C07", "PauLieVerif.Proofs.Closure", "PauLieVerif.Proofs.TieApps"]
 
 CLOSURE_MAX = {"quick": 6, "thorough": 8}
 PY_CLOSURE_MAX = 8
